@@ -640,7 +640,7 @@ func (ex *Exec) applyContractSig(fr *frame, calleeKey string, pkg *types.Package
 	}
 	for _, p := range ptrs {
 		if p.C != nil {
-			ex.store(p, &LazyV{T: p.T, Nm: Namer{Prefix: ex.freshName(label + "!heap")}})
+			ex.havocObject(p, label, calleeKey)
 		}
 	}
 	// results
@@ -1158,4 +1158,46 @@ func (ex *Exec) relevantClause(c *Clause) bool {
 		}
 	}
 	return false
+}
+
+// havocObject replaces the object behind p by an unknown one, keeping the fields declared
+// stable for its type (unless the callee is one of their declared writers).
+func (ex *Exec) havocObject(p *PtrV, label, calleeKey string) {
+	fresh := Val(&LazyV{T: p.T, Nm: Namer{Prefix: ex.freshName(label + "!heap")}})
+	if env := ex.Cfg.EnvRef; env != nil {
+		for _, sd := range env.Specs.Stable {
+			if sd.T == nil {
+				if t, err := env.lookupType(sd.PkgPath, sd.Type); err == nil {
+					sd.T = t
+				}
+			}
+			if sd.T == nil || !types.Identical(sd.T, p.T) {
+				continue
+			}
+			writer := false
+			for _, w := range sd.Writers {
+				if w == calleeKey {
+					writer = true
+				}
+			}
+			if writer {
+				continue
+			}
+			old, ok1 := ex.force(ex.load(p)).(*StructV)
+			nv, ok2 := ex.force(fresh).(*StructV)
+			st, ok3 := p.T.Underlying().(*types.Struct)
+			if !ok1 || !ok2 || !ok3 {
+				continue
+			}
+			for i := 0; i < st.NumFields(); i++ {
+				for _, f := range sd.Fields {
+					if st.Field(i).Name() == f {
+						nv.F[i] = old.F[i]
+					}
+				}
+			}
+			fresh = nv
+		}
+	}
+	ex.store(p, fresh)
 }
